@@ -562,7 +562,7 @@ def blank_delimited_case(ctx, rng):
         ctx.violation("value-differs-from-data", {"got": repr(got)[:300], "expected": repr(want)[:300]}, case)
 
 
-TOK_KW = r"""(?P<SPACE>\s+)|(?P<COMMENT>\#.*)|(?P<WORD>[a-z]+)|"(?P<QSTR>[a-z ]*)"|(?P<ML>''')|(?P<BO>\[)|(?P<BC>\])|(?P<CO>\{)|(?P<CC>\})
+TOK_KW = r"""(?P<SPACE>\s+)|(?P<COMMENT>\#.*)|(?P<WORD>[a-z]+)|"(?P<QSTR>[a-z ]*)"|(?P<ML>''')|(?P<AT>@)|(?P<LT><)|(?P<GT>>)|(?P<BO>\[)|(?P<BC>\])|(?P<CO>\{)|(?P<CC>\})
             |(?P<COMMA>,)|(?P<COLON>:)"""
 _KW_PARSER = []
 
@@ -573,12 +573,17 @@ def keyword_case(ctx, rng):
     if not _KW_PARSER:
         _KW_PARSER.append(llparser.LLParser(
             # (a text in triple quotes may run over several lines; it is a string like the ones in double quotes)
-            TOK_KW, synonyms={'BO': '[', 'BC': ']', 'CO': '{', 'CC': '}', 'COMMA': ',', 'COLON': ':', 'ML': 'QSTR'},
+            TOK_KW, synonyms={'BO': '[', 'BC': ']', 'CO': '{', 'CC': '}', 'COMMA': ',', 'COLON': ':', 'ML': 'QSTR',
+                              'AT': '@', 'LT': '<', 'GT': '>'},
             span_matchers={'ML': r"(?P<END_ML>(.|\n)*?)'''"},
             keywords={('WORD', 'in'): 'IN', ('WORD', 'null'): 'NULL'},
             productions={'E': [('WORD', 'IN', 'LIST'), ('MAP',)],
                          'LIST': ListProds('[', 'ITEM', ',', ']'),
-                         'ITEM': [('WORD',), ('QSTR',), ('NULL',), ('LIST',), ('MAP',)],
+                         # (an item may be a name with an optional list of tags in front: "<a, b> @ w" or "@ w" - the
+                         # only thing every TAGGED starts with for sure comes BEHIND a part that may be absent)
+                         'ITEM': [('WORD',), ('QSTR',), ('NULL',), ('LIST',), ('MAP',), ('TAGGED',)],
+                         'TAGGED': [('OTAGS', '@', 'WORD')],
+                         'OTAGS': ListProds('<', 'WORD', ',', '>', optional=True),
                          'MAP': MapProds('{', 'QSTR', ':', 'ITEM', ',', '}')}))
     ctx.evaluated()
 
@@ -589,12 +594,18 @@ def keyword_case(ctx, rng):
         if d < 3 and r < 0.35:
             return {rng.choice(["in", "null", "k", "x y", "", "two\nlines", "a\n\nb"]): gen(d + 1)
                     for _ in range(rng.choice([0, 1, 2, 3]))}
+        if r > 0.85:
+            tags = None if rng.random() < 0.5 else [rng.choice(["a", "bc"]) for _ in range(rng.choice([0, 1, 2]))]
+            return ('T', tags, rng.choice(["w", "in"[:0] + "x"]))
         return rng.choice(["a", "bc", "null", '"in"', '"null"', '"x y"', '""', '"a"', "'''x\ny'''", "''''''",
                            "''' in\n  null '''"])
 
     def text_of(v):
         if isinstance(v, str):
             return v
+        if isinstance(v, tuple):
+            tags = "" if v[1] is None else "<" + ws(rng) + (ws(rng) + "," + ws(rng)).join(v[1]) + ws(rng) + ">"
+            return tags + ws(rng) + "@" + ws(rng) + v[2]
         if isinstance(v, list):
             return "[" + ws(rng) + (ws(rng) + "," + ws(rng)).join(text_of(x) for x in v) + ws(rng) + "]"
         return "{" + ws(rng) + (ws(rng) + "," + ws(rng)).join(
@@ -604,6 +615,8 @@ def keyword_case(ctx, rng):
     def want_of(v):
         if isinstance(v, str):
             return v[3:-3] if v.startswith("'''") else v[1:-1] if v.startswith('"') else v
+        if isinstance(v, tuple):
+            return ('TE', 'TAGGED', [v[1], '@', v[2]])
         if isinstance(v, list):
             return [want_of(x) for x in v]
         return ('DICT', [(k, want_of(x)) for k, x in v.items()])
@@ -624,6 +637,37 @@ def keyword_case(ctx, rng):
         got = got[2][2] if len(got[2]) == 3 else got[2][0]
     if got != want_of(data):
         ctx.violation("value-differs-from-data", {"got": repr(got)[:300], "expected": repr(want_of(data))[:300]}, case)
+
+
+_CMD_PARSER = []
+
+
+def command_line_case(ctx, rng):
+    """two lists without brackets and without delimiters in a row: options "key = value", then plain arguments - an
+    option and an argument start with the same kind of token"""
+    if not _CMD_PARSER:
+        _CMD_PARSER.append(llparser.LLParser(
+            r"(?P<SPACE>\s+)|(?P<COMMENT>\#.*)|(?P<WORD>[a-z0-9_.]+)|(?P<EQ>=)|(?P<SEMI>;)",
+            synonyms={'EQ': '=', 'SEMI': ';'},
+            productions={'E': [('WORD', 'OPTS', 'ARGS', ';')],
+                         'OPTS': ListProds(None, 'OPT', None, None),
+                         'OPT': [('WORD', '=', 'WORD')],
+                         'ARGS': ListProds(None, 'WORD', None, None)}))
+    ctx.evaluated()
+    opts = [(rng.choice(["k", "n", "out"]), rng.choice(["v", "1", "a.txt"])) for _ in range(rng.choice([0, 0, 1, 2, 4]))]
+    args = [rng.choice(["a.txt", "b", "k", "7"]) for _ in range(rng.choice([0, 0, 1, 2, 5]))]
+    text = "run" + sep(rng) + "".join(k + ws(rng) + "=" + ws(rng) + v + sep(rng) for k, v in opts) + \
+        "".join(a + sep(rng) for a in args) + ";"
+    case = {"options": {"command_line": True}, "text": text}
+    try:
+        got = norm(_CMD_PARSER[0].parse(text))
+    except Exception as err:
+        ctx.violation("valid-text-rejected", {"type": type(err).__name__, "msg": str(err)[:200]}, case)
+        return
+    ctx.count("command_lines_parsed")
+    want = ('TE', 'E', ['run', [('TE', 'OPT', [k, '=', v]) for k, v in opts], list(args), ';'])
+    if got != want:
+        ctx.violation("value-differs-from-data", {"got": repr(got)[:300], "expected": repr(want)[:300]}, case)
 
 
 def shared_any_case(ctx, rng):
@@ -717,6 +761,8 @@ def run_shard(ctx):
                 keyword_case(ctx, rng)
             for _ in range(2):
                 shared_any_case(ctx, rng)
+            for _ in range(6):
+                command_line_case(ctx, rng)
         o = gen_options(rng)
         try:
             mk_parser(o)
